@@ -188,16 +188,36 @@ def real_functions(ctext, module_name="m", multi=False):
     return res
 
 
+_W2C2_FAILURES = {"n": 0}
+
+
+def _limits():
+    import resource
+    # a translator gone wrong (seeded or real defect) must not eat the machine: 6 GiB address space, 60 s CPU
+    resource.setrlimit(resource.RLIMIT_AS, (6 << 30, 6 << 30))
+    resource.setrlimit(resource.RLIMIT_CPU, (60, 60))
+
+
 def run_w2c2(w2c2, wasm_bytes, workdir, opts=(), name="m"):
+    """-> (text of all emitted .c files, stderr) or (None, reason).  After 6 failures (crash / timeout / non-zero exit on a
+    valid module) further modules are not attempted (circuit breaker): the first failures are what gets reported."""
+    if _W2C2_FAILURES["n"] >= 6:
+        return None, "not attempted: the real w2c2 already failed on %d earlier valid modules" % _W2C2_FAILURES["n"]
     wasm = os.path.join(workdir, name + ".wasm")
     out = os.path.join(workdir, name + ".c")
     open(wasm, "wb").write(wasm_bytes)
     for f in os.listdir(workdir):
         if re.fullmatch(r"[sd]\d{10}\.c", f):
             os.remove(os.path.join(workdir, f))
-    p = subprocess.run([w2c2] + list(opts) + [wasm, out], stdout=subprocess.PIPE, stderr=subprocess.PIPE, text=True, timeout=120)
+    try:
+        p = subprocess.run([w2c2] + list(opts) + [wasm, out], stdout=subprocess.PIPE, stderr=subprocess.PIPE, text=True, timeout=90,
+                           preexec_fn=_limits)
+    except subprocess.TimeoutExpired:
+        _W2C2_FAILURES["n"] += 1
+        return None, "w2c2 did not terminate within 90 s"
     if p.returncode != 0:
-        return None, p.stderr[-500:]
+        _W2C2_FAILURES["n"] += 1
+        return None, "exit %d: %s" % (p.returncode, p.stderr[-500:])
     text = open(out).read()
     for f in sorted(os.listdir(workdir)):
         if re.fullmatch(r"[sd]\d{10}\.c", f):
